@@ -153,7 +153,41 @@ def c_genattr(tr):
 
 
 # (name, property whose quick families provide the traces, trace predicate, corruption, expected clause prefix)
+def _first_edit(tr, pred=lambda e: True):
+    return next((i for i, e in enumerate(tr['ev']) if e['a'].startswith('Edit') and pred(e)), None)
+
+
+def c_edit_dropped(tr):
+    i = _first_edit(tr, lambda e: e['a'] == 'EditCard')
+    del tr['ev'][i]
+    return i          # the observation that follows sees a model no logged call explains
+
+
+def c_edit_not_applied(tr):
+    i = _first_edit(tr, lambda e: e['a'] == 'EditCard')
+    tr['ev'][i]['post']['rels'] = tr['ev'][i - 1]['post']['rels']      # the assignment had no effect
+    return i
+
+
+def c_lookup_gone(tr):
+    i = first_event(tr, 'Query', lambda e: e['ret']['lookup_gone'])
+    g = tr['ev'][i]['ret']['lookup_gone'][0]
+    g['found'] = g['n']          # a name that left the tree is still found
+    return i
+
+
+def c_order(tr):
+    i = first_event(tr, 'Compare', lambda e: e['ret']['feats'])
+    q = tr['ev'][i]['ret']['feats'][0]
+    q['lt'] = q['gt'] = True
+    return i
+
+
 PLAN = [
+    ('an in-place edit is not logged', 'C03', lambda t: _first_edit(t, lambda e: e['a'] == 'EditCard') is not None, c_edit_dropped, 'C03.query.samemodel'),
+    ('an in-place edit has no effect', 'C03', lambda t: _first_edit(t, lambda e: e['a'] == 'EditCard') is not None, c_edit_not_applied, 'C03.build.step'),
+    ('a removed name is still found', 'C03', lambda t: first_event(t, 'Query', lambda e: e['ret']['lookup_gone']) is not None, c_lookup_gone, 'C03.lookup.gone'),
+    ('order relation not asymmetric', 'C20', lambda t: first_event(t, 'Compare', lambda e: e['ret']['feats']) is not None, c_order, 'X.order.feature.asym'),
     ('stale parent pointer after add_relation', 'C03', lambda t: first_event(t, 'AddRelation') is not None, c_childparent, 'C03.build.'),
     ('relation cardinality off by one', 'C03', lambda t: first_event(t, 'AddRelation') is not None, c_card, 'C03.build.step'),
     ('one builder event removed', 'C03', lambda t: len([e for e in t['ev'] if e['a'] == 'AddRelation']) >= 2, c_drop_event, 'C03.build.step'),
